@@ -11,7 +11,7 @@
    kind 2: 100 + f  = race on field f that the table PREDICTS for the blamed
                       pair (an unprotected pair: a culprit, or a cold
                       StateNames()) - the known findings
-           199      = a race the harness could not attribute to a field, in a
+           199      = a race the harness could not attribute to any field, in a
                       program for which the table predicts a race
            200 + c  = race on a field of class c (Spec.C12.field_class) for a
                       pair the table proves protected; c = 0: unattributed
@@ -25,12 +25,13 @@ Record c12case := {
   k_threads : list (list string);
   k_missing : list string;
   o_raced : bool;
-  o_field : nat;            (* 999 = not attributed *)
+  o_fields : list nat;      (* candidate fields of the first report; a singleton
+                               when the two source lines name the field, the
+                               fields named in the enclosing functions
+                               otherwise; [] = not attributed *)
   o_m1 : string;            (* "" = not attributed *)
   o_m2 : string
 }.
-
-Definition no_field : nat := 999.
 
 (* duplicate-free summaries of the table, computed once *)
 Definition summ_table (v : variant) : list (string * list acc) :=
@@ -83,14 +84,15 @@ Definition check_case (c : c12case) : list (N * N) :=
   (match k_missing c with [] => [] | _ => [(1%N, 1%N)] end) ++
   (if o_raced c then
      let pr := predicted c in
-     if Nat.eqb (o_field c) no_field then
-       match pr with
-       | [] => [(2%N, 200%N)]
-       | _ => [(2%N, 199%N)]
-       end
-     else if existsb (Nat.eqb (o_field c)) pr
-          then [(2%N, N.of_nat (100 + o_field c))]
-          else [(2%N, N.of_nat (200 + field_class (o_field c)))]
+     match find (fun f => existsb (Nat.eqb f) pr) (o_fields c) with
+     | Some f => [(2%N, N.of_nat (100 + f))]
+     | None =>
+         match o_fields c, pr with
+         | [], [] => [(2%N, 200%N)]
+         | [], _ => [(2%N, 199%N)]
+         | f :: _, _ => [(2%N, N.of_nat (200 + field_class f))]
+         end
+     end
    else []).
 
 Definition check_all (cases : list (N * c12case)) : list (N * N * N) :=
